@@ -20,7 +20,7 @@ STOP_LOOKUP = STOP - {"LinearScaledUnit::from_scale", "HasRefUnit::unit_from_sca
 
 
 def body(U, path, rule="anchor"):
-    b = U.body.get(path)
+    b = U.get_body(path)
     if b is None:
         raise ModelError(rule, "function %s not found in the type-checked program" % path)
     return b
